@@ -47,6 +47,45 @@ fn storable_line(rng: &mut Rng) -> String {
 pub fn cases(rng: &mut Rng, tier: &str) -> (Vec<Case>, bool) {
     let n = if tier == "thorough" { 4000 } else { 400 };
     let mut cases = vec![];
+    // texts of equal length that agree in their first 32 / 64 / 255 bytes, in different kinds of token (string, remark, DATA
+    // item), entered in DEScending line order - the reload enters them ascending
+    for prefix_len in [32usize, 33, 64, 255] {
+        let pre = "-".repeat(prefix_len);
+        for (hi, lo) in [
+            (format!("PRINT \" {} total\"", pre), format!("REM {} notes", pre)),
+            (format!("READ R$ : PRINT \"|{}| qty |\" : PRINT R$", pre), format!("DATA \"|{}|  17 |\"", pre)),
+            (format!("A$ = \"{}ab\" : PRINT A$", pre), format!("B$ = \"{}cd\" : PRINT B$", pre)),
+            (format!("REM{}xy", pre), format!("DATA {}zw", pre)),
+        ] {
+            let mut w = Walk::new(false, false);
+            w.start(&format!("20 {}", hi));
+            w.start(&format!("10 {}", lo));
+            w.start("LIST");
+            w.op("take");
+            let l1 = w.last();
+            let a1 = w.ops.len();
+            w.start("RUN");
+            let mut nr = 0;
+            w.drive(&[], &mut nr, 20, false);
+            w.state();
+            let a2 = w.last();
+            // reload what LIST printed, in listing order, into a fresh interpreter
+            let listing: Vec<String> = w.replies[l1].split(' ').filter_map(|r| r.strip_prefix("P:")).filter_map(unhex).map(|l| l.trim_end_matches('\n').to_string()).collect();
+            w.op("new 0 0");
+            for l in &listing {
+                w.start(l);
+            }
+            w.start("LIST");
+            w.op("take");
+            let l2 = w.last();
+            let b1 = w.ops.len();
+            w.start("RUN");
+            w.drive(&[], &mut nr, 20, false);
+            w.state();
+            let b2 = w.last();
+            cases.push(Case { ops: w.ops, checks: vec![format!("same-reply {} {}", l1, l2), format!("transcript-eq {}-{} {}-{}", a1, a2, b1, b2)], tag: "equal-prefix-texts".into(), nontrivial: true, show: format!("{}-byte common prefix: {} / {}", prefix_len, hi.chars().take(24).collect::<String>(), lo.chars().take(24).collect::<String>()) });
+        }
+    }
     for _ in 0..n {
         let mut w = Walk::new(false, false);
         let k = rng.range(1, 8);
